@@ -66,6 +66,10 @@ func (b *Block) TxsIsNil() bool {
 // Basic validation that doesn't involve state data.
 func (b *Block) ValidateBasic(chainID string, lastBlockHeight int64, lastBlockID BlockID,
 	lastBlockTime time.Time, appHash, receiptsHash []byte) error {
+	if b == nil || b.Header == nil || b.Data == nil || b.LastCommit == nil {
+		// what a proposer's part set decodes to is not necessarily a whole block
+		return errors.New("Block is missing its header, data or last commit")
+	}
 	if b.ChainID != chainID {
 		return errors.New(gcmn.Fmt("Wrong Block.Header.ChainID. Expected %v, got %v", chainID, b.ChainID))
 	}
